@@ -231,6 +231,7 @@ typedef struct {
 	int  n_wedged;   // steps of the second pass that did not succeed
 	char wedged[4][96];
 	int  pass1_enomem_calls; // API calls of the first pass that returned NNG_ENOMEM
+	char enomem_call2[64];   // the second one: one failed allocation fails one call
 	long leak_blocks, leak_bytes;
 	int  n_leaks;
 	struct {
@@ -627,7 +628,9 @@ ck_(const char *fn, unsigned allow, int rv)
 		return rv;
 	}
 	if (rv == NNG_ENOMEM) {
-		sh->pass1_enomem_calls++;
+		if (++sh->pass1_enomem_calls == 2) {
+			snprintf(sh->enomem_call2, sizeof(sh->enomem_call2), "%s", fn);
+		}
 		if (sh->n_enomem++ == 0) {
 			snprintf(sh->enomem_call, sizeof(sh->enomem_call), "%s", fn);
 		}
@@ -4690,7 +4693,14 @@ judge(const c20_case *c, const char *casedesc)
 		bad++;
 	}
 	if (sh->pass1_enomem_calls > 1) {
-		vf_stat("cases_with_several_enomem_calls", 1);
+		// one failed allocation, but a second, later API call reported
+		// NNG_ENOMEM as well: stale error state
+		snprintf(kind, sizeof(kind), "enomem-again:%s", sh->enomem_call2);
+		snprintf(detail, sizeof(detail),
+		    "%d API calls returned NNG_ENOMEM after a single failed allocation: first %s, then %s; site %s",
+		    sh->pass1_enomem_calls, sh->enomem_call, sh->enomem_call2, sdesc);
+		viol(sfn, kind, NULL, casedesc, detail);
+		bad++;
 	}
 	if (sh->follow_step[0] != 0) {
 		snprintf(kind, sizeof(kind), "followup:%s=%s", sh->follow_step,
